@@ -57,6 +57,7 @@ def parseOp (toks : List String) : Option Op :=
   | ["h.readat", h, n, off] => do pure (.hReadAt (← parseNat h) (← parseNat n) (← parseInt off))
   | ["h.write", h, b] => do pure (.hWrite (← parseNat h) (← bytesOfHex b))
   | ["h.writestring", h, b] => do pure (.hWrite (← parseNat h) (← bytesOfHex b))   -- File.WriteString(s) = Write([]byte(s))
+  | ["h.readfrom", h, b] => do pure (.hWrite (← parseNat h) (← bytesOfHex b))      -- io.Copy(f, r) with a non-empty r that fits one buffer = Write
   | ["h.writeat", h, b, off] => do pure (.hWriteAt (← parseNat h) (← bytesOfHex b) (← parseInt off))
   | ["h.trunc", h, n] => do pure (.hTrunc (← parseNat h) (← parseInt n))
   | ["h.seek", h, off, wh] => do pure (.hSeek (← parseNat h) (← parseInt off) (← parseNat wh))
